@@ -378,7 +378,7 @@ impl World {
         self.now()
     }
 
-    fn log_wire(&mut self, kind: &'static str, bytes: &[u8]) {
+    pub fn log_wire(&mut self, kind: &'static str, bytes: &[u8]) {
         if self.keep_wire_log {
             self.wire_log.push((kind, bytes.to_vec()));
         }
